@@ -34,6 +34,49 @@ def cleanup(d):
         if x.endswith('-' + tag):
             shutil.rmtree(os.path.join(VERIF, '.work', x), ignore_errors=True)
 
+def sensitivity(pid):
+    """Armed-ness of one property's check on the *current* tree (thorough tier): every self-test mutant that names the check and
+    every seeded defect of the property (seeded/<id>/patch.diff, each confirmed to break the property while compiling and passing
+    the repo's tests) is applied to a scratch copy of /repo's working tree and the check is run on it.  Nothing is executed but
+    the static check.  Returns a list of {kind, name, result}."""
+    out = []
+    muts = [json.loads(l) for l in open(os.path.join(VERIF, 'selftest', 'mutants.jsonl')) if l.strip()]
+    for m in muts:
+        if pid not in m['checks']:
+            continue
+        d = make_copy('sens-' + m['name'])
+        try:
+            if not apply(d, m):
+                res = 'not-applicable (pattern not found on the current tree)'
+            else:
+                rc, o = run_check(d, pid)
+                rules = sorted(set(re.findall(r'rule=(\S+)', o)))
+                res = 'BUILD-ERROR' if 'BUILD-ERROR' in o else ('reported: ' + ', '.join(rules[:3]) if rc == 1 else 'NOT REPORTED')
+        finally:
+            cleanup(d)
+        out.append({'kind': 'mutant', 'name': m['name'], 'result': res})
+    sdir = os.path.join(VERIF, 'seeded')
+    for sid in sorted(os.listdir(sdir)):
+        mp = os.path.join(sdir, sid, 'meta.json')
+        if not os.path.exists(mp):
+            continue
+        meta = json.load(open(mp))
+        if meta.get('property') != pid:
+            continue
+        d = make_copy('sens-' + sid)
+        try:
+            p = subprocess.run(['git', 'apply', os.path.join(sdir, sid, 'patch.diff')], cwd=d, capture_output=True, text=True)
+            if p.returncode != 0:
+                res = 'not-applicable (patch does not apply to the current tree)'
+            else:
+                rc, o = run_check(d, pid)
+                rules = sorted(set(re.findall(r'rule=(\S+)', o)))
+                res = 'BUILD-ERROR' if 'BUILD-ERROR' in o else ('reported: ' + ', '.join(rules[:3]) if rc == 1 else 'NOT REPORTED')
+        finally:
+            cleanup(d)
+        out.append({'kind': 'seeded-defect', 'name': sid, 'change': meta.get('change', '')[:160], 'result': res})
+    return out
+
 def main(args):
     only = [a for a in args if not a.startswith('-')]
     muts = [json.loads(l) for l in open(os.path.join(VERIF, 'selftest', 'mutants.jsonl')) if l.strip()]
